@@ -32,7 +32,7 @@ Definition race_run (fx : bool) := grun T [1;2;3;4] 3 fx false (ginit) race_scri
 Lemma agree_tree_refuted :
   run_ok T [1;2;3;4] 3 false false [1;2] ginit race_script = true /\
   conts_of (race_run false) 1 = [[1;2;3]] /\ conts_of (race_run false) 2 = [[2;3;4]] /\ In 2 [1;2;3].
-Proof. vm_compute. intuition. Qed.
+Proof. vm_compute. repeat split; auto. Qed.
 
 Lemma agree_tree_refuted_reachable :
   reachable T [1;2;3;4] 3 false false (honestL [1;2]) (race_run false) /\
@@ -41,14 +41,15 @@ Proof.
   split.
   - unfold race_run. apply (run_ok_reachable T [1;2;3;4] 3 false false [1;2] race_script ginit); [apply reach_init|].
     vm_compute. reflexivity.
-  - split; apply in_gconts; vm_compute; auto.
+  - split; [apply (proj1 (in_gconts 1 (emitted (race_run false)) [1;2;3]))|apply (proj1 (in_gconts 2 (emitted (race_run false)) [2;3;4]))];
+      vm_compute; auto.
 Qed.
 
 (* (b) repaired: the own view is built from the keys of the same pass, [1;3], which differs from [1;2;3] *)
 Lemma agree_fixed_same_script :
   run_ok T [1;2;3;4] 3 true false [1;2] ginit race_script = true /\
   conts_of (race_run true) 1 = [] /\ conts_of (race_run true) 2 = [[2;3;4]].
-Proof. vm_compute. intuition. Qed.
+Proof. vm_compute. repeat split; auto. Qed.
 
 (* ---- (a') a member that expects only itself -------------------------------------------------------- *)
 Definition solo_script : list event := [Tick; Pass1; Pass2; Tick; Pass1; Pass2].
@@ -86,7 +87,7 @@ Lemma too_many_some_continue :
   run_ok T [1;2;3] 2 true true [1;2;3] ginit many_script = true /\
   conts_of many_run 1 = [[1;2]] /\ conts_of many_run 2 = [[1;2]] /\
   conts_of many_run 3 = [] /\ errs_of many_run 3 = 1%nat.
-Proof. vm_compute. intuition. Qed.
+Proof. vm_compute. repeat split; auto. Qed.
 
 (* ---- (c) non-vacuity: members 0, 256 and 65535 of the configured {0, 7, 256, 65535}, expected 3 -------- *)
 Definition V3 : view := [0; 256; 65535].
@@ -119,5 +120,7 @@ Proof.
   split.
   - unfold ok_run. apply (run_ok_reachable T M3 3 true true H3 ok_script ginit); [apply reach_init|].
     vm_compute. reflexivity.
-  - repeat split; apply in_gconts; vm_compute; auto.
+  - split; [apply (proj1 (in_gconts 0 (emitted ok_run) V3))|split;
+      [apply (proj1 (in_gconts 256 (emitted ok_run) V3))|apply (proj1 (in_gconts 65535 (emitted ok_run) V3))]];
+      vm_compute; auto.
 Qed.
